@@ -92,7 +92,8 @@ def plan(tier):
             "min_nontrivial": 150 if tier == "quick" else 1500,
             "required_classes": req,
             "required_counters": {"crash_points": 200 if tier == "quick" else 2000, "children_run": 200,
-                                  "oracle": 200, "roundtrip_objects": 40, "spill_tensors_on_disk": 40},
+                                  "oracle": 200, "roundtrip_objects": 40, "spill_tensors_on_disk": 40,
+                                  "spill_held_references_checked": 200},
             "case_time_limit": 400, "max_inconclusive_frac": 0.0,
             "chunk_timeout": 1500 if tier == "quick" else 3 * 3600}
 
@@ -937,21 +938,46 @@ def spill_body(ctx, tmp):
             y[k] = arr
             shadow.append(arr.copy())
         nbad = 0
+        held = []          # (site, tensor object handed out, its values at that moment): as in memory, a tensor that was
+        #                    handed out keeps its values when the site is rewritten afterwards
         for step in range(int(rng.integers(6, 20))):
             i = int(rng.integers(0, n))
             form = i if rng.random() < 0.5 else i - n
-            if rng.random() < 0.45:
+            r_ = rng.random()
+            if r_ < 0.35:
                 new = shadow[i] * float(rng.uniform(0.5, 2.0)) + 0.01
                 y[form] = new
                 shadow[i] = np.array(new, copy=True)
                 ctx.count("spill_accessor_writes")
+            elif r_ < 0.45:
+                # an in-place operation of the library on the spilled state
+                f = float(rng.choice([-2.0, 0.5, 3.0]))
+                y.scale(f, inplace=True)
+                shadow[y.qnidx] = shadow[y.qnidx] * f
+                ctx.count("spill_accessor_writes")
+                ctx.cls("spill:in-place-scale")
             else:
-                got = np.asarray(y[form].array)
+                mt = y[form]
+                got = np.asarray(mt.array)
                 ctx.count("spill_accessor_reads")
                 if got.shape != shadow[i].shape or not np.array_equal(got, shadow[i]):
                     nbad += 1
                     ctx.violate("spill|accessor|read-does-not-return-the-tensor-stored-last", site=i, index_form=form, step=step)
                     break
+                held.append((i, mt, np.array(got, copy=True)))
+            for (j, mt, snap) in held:
+                ctx.count("spill_held_references_checked")
+                try:
+                    now = np.asarray(mt.array)
+                    same = now.shape == snap.shape and np.array_equal(now, snap)
+                except Exception as e:  # noqa: BLE001 - e.g. a mapping of a file that shrank
+                    same = False
+                if not same:
+                    nbad += 1
+                    ctx.violate("spill|accessor|tensor-handed-out-earlier-changed-when-the-site-was-rewritten", site=j, step=step)
+                    break
+            if nbad:
+                break
         ctx.check(all(isinstance(t, str) for t in y._mp), "spill|accessor|tensor-kept-in-memory")
         del y
         gc.collect()
